@@ -487,7 +487,7 @@ Section DeathTrace.
     - apply srel_refl.
     - destruct (get_unit (units s) (ur_target r)) as [u|]; [|apply srel_refl].
       destruct (negb (uchar u)); [apply srel_refl|].
-      destruct (PrimFloat.eqb _ 1); [|apply IH].
+      destruct (can_ult u); [|apply IH].
       set (m0 := enqueue s PRIO_CHAR_ACTION (ur_target r) [FLAG_STAT_CTRL; FLAG_DISABLE_ACTION] (KUlt r)).
       set (m := set_energy m0 (ur_target r) 0).
       assert (E : srel s m) by (apply srel_trans with m0; [apply srel_same; reflexivity|apply srel_set_energy]).
@@ -559,7 +559,7 @@ Section DeathTrace.
       set (s1 := emit (set_next s q) [VNextAction id (dc_type d) (dc_eval d)]) in *.
       assert (E1 : srel s s1).
       { apply srel_trans with (set_next s q); [apply srel_set_next|apply srel_emit_neutral; reflexivity]. }
-      destruct ((dc_type d =? 1) && negb (uspneed u <=? sp s1)) eqn:ED.
+      destruct ((dc_type d =? 1) && negb (can_skill u s1)) eqn:ED.
       + set (s2 := emit s1 [VDefaultAction id]) in *.
         assert (E2 : srel s s2) by (eapply srel_trans; [exact E1|apply srel_emit_neutral; reflexivity]).
         destruct (evaluate s2 id 100 (utt_a u)) as [p|]; [|exact E2].
